@@ -102,6 +102,11 @@ func RunOne(t *testing.T, mk func() World, c *simrt.Choices, opt Options) (res R
 	if pw, ok := w.(interface{ Post(*RunResult) }); ok {
 		pw.Post(&res)
 	}
+	if rw, ok := w.(interface{ Remap(*simrt.Violation) }); ok {
+		for i := range res.Violations {
+			rw.Remap(&res.Violations[i])
+		}
+	}
 	for i := range res.Violations {
 		v := &res.Violations[i]
 		// a hang inside lock acquisition is a C10 matter (a waiter must proceed once the holder
